@@ -158,7 +158,7 @@ def observe(ctxs, intern, present_cols, recollect=False):
         with warnings.catch_warnings():
             warnings.simplefilter("ignore")
             ctxs = list(ctxs)
-            lst = collect_results(ctxs, how="list")
+            lst = collect_results(iter(ctxs), how="list")      # a run handed over as a generator, consumed once
             dct = collect_results(ctxs, how="dict")
             if recollect:
                 scribble(lst, dct)
